@@ -1,16 +1,43 @@
-"""C19  Concurrent transactions on different documents conflict or both take effect."""
+"""C19  Concurrent transactions on different documents conflict or both take effect.
+
+Three comparisons per case (two real connections on a conflict-resolving FileStorage):
+  * real stored catalog (third connection) = real in-memory catalog that ran the committed transactions
+    serially (complete observation + query battery)                      I vs S  -> VIOLATION
+  * the object-level Lean model (`HypatiaModel/ConcurrencyIndex.lean`: field, keyword and facet index as
+    heaps of persistent objects with read/write footprints and BTrees' merge rules) replays the same
+    operations in three transactions and merges: real `ok, ok` => the model's merge succeeds (a model
+    conflict the real BTrees did not see means the model's footprint is wrong -> drift; a real conflict the
+    model does not see is admissible: real BTrees refuse in more cases) and the merged model heap equals
+    the stored catalog in the model's vocabulary (reverse map, not-indexed, counter, every posting)
+  * the abstract commit log (which operations must be visible for which outcome)
+
+Sanity check by mutation (scratch copies, each reported VIOLATION with a concrete failing input):
+  M1  revert of 54fed54 (D20: `_insert_forward` does not empty the Set it replaces)            caught
+  M2  FieldIndex `_num_docs` = a Length subclass whose `_p_resolveConflict` keeps the new state    caught
+  M6  FieldIndex.unindex_doc replaces the posting by a copy without the docid (copy-on-write)      caught
+  M12 KeywordIndex.unindex_doc converts a TreeSet below tree_threshold back to a Set (no clear)    caught
+  M19 FacetIndex.index_doc stores a copy of the posting on every insert                           caught
+M1, M12 need a threshold crossing on one side and a non-crossing change of the same posting on the other,
+with the contended docid not at the head of its bucket (padded-directed generator mode).
+"""
 import importlib
 import os
+import re
 import shutil
 
 from lib import core
 from lib.core import exc_name
 
 ID = "C19"
-AUDIT_IMPORTS = ["HypatiaProofs.Properties.C19"]
+AUDIT_IMPORTS = ["HypatiaProofs.Properties.C19", "HypatiaProofs.Properties.C19Index"]
 THEOREMS = ["Hyp.Concurrency." + t for t in (
     "c19_conflict_no_trace", "c19_both_visible_serial", "c19_mergeKey_cases", "c19_merge_is_serial",
-    "c19_length_merge", "c19_write_skew_needs_rw")]
+    "c19_length_merge", "c19_write_skew_needs_rw")] + ["Hyp.CIdx." + t for t in (
+    "c19_field_init", "c19_field_txn_refines", "c19_field_conflict_or_serial", "c19_field_serial_refines",
+    "c19_field_merged_observes_serial", "c19_d20_unrepaired_loses_update", "c19_d20_repaired_conflicts",
+    "c19_replacement_conflicts", "c19_keyword_no_orphan_merge", "c19_keyword_init", "c19_keyword_txn_refines",
+    "c19_keyword_conflict_or_serial", "c19_keyword_serial_refines", "c19_keyword_merged_observes_serial",
+    "c19_field_reachable_base", "c19_keyword_reachable_base")]
 CASES = {"quick": 640, "thorough": 12000}
 BUDGET_S = {"quick": 50, "thorough": 800}
 BATCH = 10
@@ -21,16 +48,27 @@ RULE = ("a committed base state (0-12 operations on a catalog with field, keywor
         "crossing representation thresholds); both commit orders; each commit is `ok` or ConflictError (the "
         "loser aborts); a third connection with an empty cache is then compared - complete observable state "
         "and query battery - with an in-memory catalog that ran the base and then the committed transactions "
-        "one after the other. non-trivial = both transactions change something and at least one posting / word "
-        "is shared between them")
-LEVEL_TEXT = ("Lean 4: object-level model of optimistic commits with BTrees' three-way merges (Length: com + new "
-              "- old; buckets/sets: per-key merge that fails when both sides changed one key); theorem: when "
-              "every doubly-written object merges and the second transaction read no key the first wrote, the "
-              "merged heap equals serial execution. The runtime half (MVCC, real _p_resolveConflict, storage) is "
-              "checked on a real FileStorage with two connections against serial replay")
+        "one after the other; the same operations are replayed on the object-level Lean model (field, keyword, "
+        "facet index as heaps of persistent objects) whose merge must succeed whenever both real commits did, "
+        "with the same stored state. non-trivial = both transactions change something and at least one posting / "
+        "word is shared between them")
+LEVEL_TEXT = ("Lean 4: (1) generic optimistic commit with three-way merges: merged = serial when every doubly "
+              "written position merges and the second transaction read nothing the first wrote; (2) per-index "
+              "object layer: field, keyword and facet index as heaps of persistent objects (forward tree key -> "
+              "reference, posting objects with their own identity incl. the Set -> TreeSet replacement, reverse "
+              "tree, not-indexed set, Length) with read/write footprints and BTrees' rules (per-key merge, "
+              "conflict when both changed a key, when the committed or new state is empty, when the merged one "
+              "would be). Field index and keyword index (repaired code, any tree_threshold), for all bases "
+              "satisfying the C01 / C02 invariant and all operation lists on disjoint docids: the second commit "
+              "conflicts or the merged heap satisfies the invariant for the serial table "
+              "(c19_field_conflict_or_serial, c19_keyword_conflict_or_serial; queries, counts, statistics = "
+              "serial). D20 as theorems: the unrepaired replacement merges and loses the update (witness); "
+              "repaired code: replacing a posting object the other side wrote always conflicts. Runtime half: "
+              "two real connections vs serial replay, and real ok+ok => model merge ok with the same stored state")
 LEVEL_NOTE = ("partial: thread scheduling, MVCC, storage and the real conflict-resolution code are ZODB/BTrees' "
-              "(trusted, sampled); which objects each hypatia operation reads and writes is established by the "
-              "runs, not by proof")
+              "(trusted, sampled; the model's merge rules are a subset of BTrees' refusals, checked in the "
+              "direction real success => model success); the conflict-or-serial theorem is proved for the field "
+              "and the keyword index; facet index: object model and runs only; text indexes: runs only")
 TECHNIQUE = "Lean 4 proof about the three-way-merge abstraction + two-connection differential run on a real FileStorage"
 
 c09 = importlib.import_module("props.c09")
@@ -302,7 +340,7 @@ def impl_run(hyp, case):
                     tm3 = transaction.TransactionManager()
                     c3 = db.open(tm3)
                     c3.cacheMinimize()
-                    out.append(c09.observe(c3.root()["cat"], ids))
+                    out.append(c09.observe(c3.root()["cat"], ids) + " @@ " + objobs(c3.root()["cat"], ids))
                     tm3.abort()
                     c3.close()
                 else:
@@ -318,10 +356,43 @@ def impl_run(hyp, case):
     return out
 
 
+_LAST = {}      # the object-level model's verdict on the case evaluated last (read by `features`)
+
+
+def objobs(cat, ids):
+    """the object-level model's vocabulary, read through the public API: reverse map, not-indexed set, the
+    counter where a method reports it, and every forward key with its posting"""
+    from lib.core import idset
+    out = []
+    if "i0" in cat:
+        ix = cat["i0"]
+        rev = ["%d:%s" % (d, ix.document_repr(d)) for d in ids if ix.document_repr(d) is not None]
+        fwd = ["%d:%s" % (v, idset(ix.applyEq(v))) for v in sorted(ix.unique_values())]
+        out.append("i0 rev=[%s] ni=%s len=%d fwd=[%s]" % (" ".join(rev), idset(ix.not_indexed()),
+                                                         ix.indexed_count(), " ".join(fwd)))
+    for name, names in (("i1", c09.KWS), ("i2", c09.FACETS)):
+        if name not in cat:
+            continue
+        ix = cat[name]
+        rev = []
+        for d in ids:
+            r = ix.document_repr(d)
+            if r is not None:
+                rev.append("%d:%s" % (d, ",".join(str(k) for k in sorted(names.index(w) for w in
+                                                                           re.findall(r"'([^']*)'", r)))))
+        fwd = ["%d:%s" % (names.index(w), idset(ix.applyEq(w))) for w in sorted(ix.unique_values(), key=names.index)]
+        out.append("%s rev=[%s] ni=%s fwd=[%s] inv=1" % (name, " ".join(rev), idset(ix.not_indexed()), " ".join(fwd)))
+    return " ;; ".join(out)
+
+
 def post_model(hyp, case, mouts, iouts=None):
     """the `check` line lists, for each combination of commit outcomes, the operations that must be visible;
     pick the combination the implementation produced (both outcomes are admissible) and turn it into the
-    observation of an in-memory catalog that ran exactly those operations serially"""
+    observation of an in-memory catalog that ran exactly those operations serially (= the specification's
+    answer).  The part after ` @@ ` is the object-level model: the heaps its own merge produced (both
+    committed) or the first committer's heaps (second commit refused), compared with the stored catalog in
+    the model's vocabulary; the second `commit` line carries the model's merge verdict - a model conflict
+    where the real commit succeeded is a wrong footprint (drift), the converse is admissible"""
     ops = {c[1]: c for c in case["cmds"] if c[0] in ("base", "a", "b")}
     ids = list(range(case["cfg"][0][2]))
     cutoff = case["cfg"][1][2]
@@ -330,9 +401,15 @@ def post_model(hyp, case, mouts, iouts=None):
         if c[0] == "commit":
             outcome[c[1]] = o
     key = "%s,%s:" % (outcome.get("a", "?"), outcome.get("b", "?"))
+    order = [c[1] for c in case["cmds"] if c[0] == "commit"]
+    _LAST["model2"] = "conflict" if any(m.startswith("conflict ") for m in mouts) else "ok"
+    _LAST["objects"] = sorted({"%s:%s" % x for m in mouts if m.startswith("conflict ")
+                               for x in re.findall(r"(i\d):(fwd|rev|ni|len|post)", m.split(" ## ")[0])})
     res = []
     for m in mouts:
         if m.startswith("eff "):
+            parts = m.split(" @@ ")
+            m = parts[0]
             alts = [x.strip() for x in m[4:].split(";")]
             pick = [x for x in alts if x.startswith(key)]
             if not pick:
@@ -347,7 +424,13 @@ def post_model(hyp, case, mouts, iouts=None):
             try:
                 for k in ks:
                     c09.apply_op(cat, ["op"] + list(ops[k][1:]))
-                res.append(c09.observe(cat, ids))
+                spec = c09.observe(cat, ids) + " @@ " + objobs(cat, ids)
+                model = spec
+                retried = any(c[0] == "retrycheck" for c in case["cmds"]) and "conflict" in outcome.values()
+                if len(parts) == 3 and len(order) == 2 and outcome.get(order[0]) == "ok" and not retried:
+                    # the object-level model: merged heaps / the first committer's heaps
+                    model = c09.observe(cat, ids) + " @@ " + (parts[1] if outcome.get(order[1]) == "ok" else parts[2])
+                res.append(spec if model == spec else model + " ## " + spec)
             except Exception as e:
                 res.append(exc_name(e))
         else:
@@ -367,6 +450,8 @@ def keep_cmd(c):
 def same(a, b):
     if b == "any":
         return a in ("ok", "conflict")
+    if b.startswith("conflict "):       # the object-level model refuses the merge (and names the objects)
+        return a == "conflict"
     return a == b
 
 
@@ -382,6 +467,10 @@ def features(case, outs):
     f.append("present:%s outcomes:%s" % ("+".join(case["cfg"][2][2:]), "+".join(res)))
     f.append("outcomes:" + "+".join(res))
     f.append("mode:%s outcomes:%s" % (cfgval(case, "mode", "small"), "+".join(res)))
+    if len(res) == 2 and _LAST:
+        f.append("second commit real:%s object-model:%s" % (res[1], _LAST.get("model2")))
+        for ob in _LAST.get("objects", []):
+            f.append("object-model refuses " + ob)
     for c, o in zip(case["cmds"], outs):
         if c[0] in ("a", "b"):
             f.append("txn-op:" + c[2])
